@@ -6,7 +6,12 @@ Local Open Scope Z_scope.
 Lemma kmul_correct fuel : forall k a b, 0 <= k -> kmul fuel k a b = a * b.
 Proof.
   induction fuel as [|f IH]; intros k a b Hk; [reflexivity|].
-  cbn [kmul]. cbv zeta.
+  cbn [kmul].
+  destruct (Z.eqb_spec a 0) as [->|_]; [reflexivity|].
+  destruct (Z.eqb_spec b 0) as [->|_]; [cbn [orb]; lia|]. cbn [orb].
+  destruct (Z.eqb_spec a 1) as [->|_]; [lia|].
+  destruct (Z.eqb_spec b 1) as [->|_]; [lia|].
+  cbv zeta.
   assert (Hk2 : 0 <= Z.shiftr k 1) by (apply Z.shiftr_nonneg; exact Hk).
   rewrite !IH by exact Hk2.
   rewrite !Z.land_ones, !Z.shiftr_div_pow2, !Z.shiftl_mul_pow2 by lia.
